@@ -262,6 +262,43 @@ public final class RatOverrides {
         return out(norm(t.sqrt().add(BigInteger.ONE), s));
     }
 
+    // ---------------------------------------------------------------- deep forcing of lazy values
+    /**
+     * TLC evaluates [x \in S |-> e] to a lazy lambda whose every application re-evaluates e, and TLCEval only forces the
+     * outermost level.  Force(v) converts v and everything nested in it (sequences, functions, records) to explicit values.
+     * It is the identity on values (the TLA+ definition in Rat.tla is Force(v) == v).
+     */
+    static Value force(Value v) {
+        if (v instanceof tlc2.value.impl.FcnLambdaValue) {
+            Value t = v.toTuple();
+            if (t == null) t = v.toFcnRcd();
+            if (t != null) v = t;
+        }
+        if (v instanceof TupleValue) {
+            final Value[] e = ((TupleValue) v).elems;
+            final Value[] n = new Value[e.length];
+            for (int i = 0; i < e.length; i++) n[i] = force(e[i]);
+            return new TupleValue(n);
+        }
+        if (v instanceof tlc2.value.impl.FcnRcdValue) {
+            final tlc2.value.impl.FcnRcdValue f = (tlc2.value.impl.FcnRcdValue) v;
+            final Value[] n = new Value[f.values.length];
+            for (int i = 0; i < n.length; i++) n[i] = force(f.values[i]);
+            if (f.intv != null) return new tlc2.value.impl.FcnRcdValue(f.intv, n);
+            return new tlc2.value.impl.FcnRcdValue(f.domain, n, f.isNormalized());
+        }
+        if (v instanceof tlc2.value.impl.RecordValue) {
+            final tlc2.value.impl.RecordValue r = (tlc2.value.impl.RecordValue) v;
+            final Value[] n = new Value[r.values.length];
+            for (int i = 0; i < n.length; i++) n[i] = force(r.values[i]);
+            return new tlc2.value.impl.RecordValue(r.names, n, r.isNormalized());
+        }
+        return v;
+    }
+
+    @TLAPlusOperator(identifier = "Force", module = "Rat", warn = false)
+    public static Value forceOp(final Value v) { return force(v); }
+
     // ---------------------------------------------------------------- bulk folds (speed-ups of TLA+ definitions in Rat.tla)
     static Value[] elems(final Value v) {
         final TupleValue t = (TupleValue) v.toTuple();
